@@ -592,6 +592,8 @@ def label_call(ctx, call, exp, col, sets, layouts, k, prev_build):
 
 
 def check_direct(case, ctx):
+    if case.get("binned_only00"):
+        ctx.label("binned-only-00")
     calls = [case["call"]] + list(case.get("variants", []))
     run_calls(case, ctx, calls, fresh=True)
 
@@ -808,6 +810,51 @@ def binned_cases(draw):
 
 
 @st.composite
+def binned_only00_cases(draw):
+    """> 10^6 candidate pairs whose ONLY collocation is (first primary,
+    first secondary) in time order: one close pair at the earliest times,
+    everything else far apart in space (but close in time, so that the bins
+    are searched)"""
+    distance = draw(distance_specs(lo=0.5, hi=300.0))
+    r_km = float(radius_km_exact(distance))
+    interval = draw(interval_specs())
+    m_s = interval["seconds"]
+    n1 = draw(st.integers(1001, 1080))
+    n2 = draw(st.integers(1000, 1080))
+    if draw(st.booleans()):
+        n1, n2 = n2 + 1, n1
+    lat0 = draw(st.floats(-10.0, 10.0))
+    lon0 = draw(P.longitudes())
+    f = draw(st.sampled_from([0.0, 0.5, 1.0 - 1e-3]))
+    la2, lo2 = S.destination(lat0, lon0, draw(st.sampled_from(P.BEARINGS)),
+                             P._angle_for(f * r_km, "chord"))
+    step = max(m_s // draw(st.sampled_from([2, 4])), 1)
+    dt0 = draw(st.integers(0, max(m_s - 1, 0)))
+    sets, layouts = [], []
+    next_id = 0
+    for k, (n, first, band) in enumerate((
+            (n1, (lat0, lon0, 0), 50.0), (n2, (la2, lo2, dt0), -50.0))):
+        lat, lon, t_ms = [first[0]], [first[1]], [first[2] * 1000]
+        for i in range(1, n):
+            lat.append(band + (i % 7))
+            lon.append(((i * 0.37 + 180.0) % 360.0) - 180.0)
+            t_ms.append((m_s + i * step) * 1000)
+        # arbitrary order in the arrays
+        perm = draw(P.permutations_of(n))
+        sets.append({"lat": [lat[i] for i in perm],
+                     "lon": [lon[i] for i in perm],
+                     "t_ms": [t_ms[i] for i in perm],
+                     "id": [next_id + i for i in perm]})
+        next_id += n
+        layouts.append({"dim": "n", "labels": draw(P.permutations_of(n))})
+    all_times = sorted(set(sets[0]["t_ms"] + sets[1]["t_ms"]))
+    call = draw(call_specs(0, 1, distance, interval, all_times, True,
+                           window=False))
+    return {"sets": sets, "layouts": layouts, "call": call, "variants": [],
+            "binned_only00": True}
+
+
+@st.composite
 def history_cases(draw):
     # "jitter": thresholds of metres and copies displaced by about the
     # threshold - the cached spatial index of the original must not serve
@@ -968,7 +1015,8 @@ def suites(tier):
               examples={"quick": 340, "thorough": 12000}),
         Suite("histories", check_history, strategy=history_cases(),
               examples={"quick": 75, "thorough": 2500}),
-        Suite("binned", check_direct, strategy=binned_cases(),
+        Suite("binned", check_direct, strategy=st.one_of(
+            binned_cases(), binned_cases(), binned_only00_cases()),
               examples={"quick": 8, "thorough": 150}),
         Suite("histories-inplace", check_inplace_history,
               strategy=inplace_history_cases(),
